@@ -599,6 +599,9 @@ type PublicCase struct {
 	Compress bool  `json:"compress"`
 	Order    []int `json:"order"` // permutation of all datagrams (indices into the concatenated outbox)
 	Lose     []int `json:"lose"`  // indices lost
+	// SendFail[i] = k > 0: while message i is being sent, its k-th SendDatagram fails (once). The Write fails; the datagrams that
+	// went out before are on the wire as a message that can never complete, and the messages after it must be unaffected.
+	SendFail []int `json:"send_fail,omitempty"`
 }
 
 func runPublic(c PublicCase, k *ev.Case) *ev.Failure {
@@ -623,6 +626,7 @@ func runPublic(c PublicCase, k *ev.Case) *ev.Failure {
 	ua, _ := ta.AsUnreliable()
 	ub, _ := tb.AsUnreliable()
 	var perMsg [][][]byte
+	failedSend := map[int]bool{}
 	bodies := make([][]byte, len(c.Lens))
 	for i, l := range c.Lens {
 		bodies[i] = body(i, l)
@@ -631,7 +635,20 @@ func runPublic(c PublicCase, k *ev.Case) *ev.Failure {
 				bodies[i][j] = byte((j*j*31 + i*17 + j>>3) ^ (j * 2654435761 >> 13))
 			}
 		}
-		if err := ua.Write(bodies[i]); err != nil {
+		inject := 0
+		if i < len(c.SendFail) && c.SendFail[i] > 0 && c.SendFail[i] <= nsegs(len(bodies[i])) && !c.Compress {
+			inject = c.SendFail[i]
+			a.FailSendIn = inject
+		}
+		err := ua.Write(bodies[i])
+		a.FailSendIn = 0
+		if inject > 0 {
+			if err == nil {
+				return ev.Failf("C14.4 send-error-swallowed", "SendDatagram failed on datagram %d of a %d-byte message, Write returned nil", inject, l)
+			}
+			failedSend[i] = true
+			k.Label("send-failure-mid-message")
+		} else if err != nil {
 			return ev.Failf("C14.4 sender-refused", "unreliable Write of %d bytes: %v", l, err)
 		}
 		perMsg = append(perMsg, a.TakeOutbox())
@@ -665,7 +682,7 @@ func runPublic(c PublicCase, k *ev.Case) *ev.Failure {
 		r := all[i]
 		b.Inject(perMsg[r.m][r.s])
 		cnt[r.m]++
-		if cnt[r.m] == len(perMsg[r.m]) {
+		if cnt[r.m] == len(perMsg[r.m]) && !failedSend[r.m] {
 			complete[r.m] = true
 			expectOrder = append(expectOrder, r.m)
 		}
@@ -733,6 +750,11 @@ var subPublic = ev.Sub[PublicCase]{Name: "public", Q: 200, T: 5000,
 		}
 		if rapid.Bool().Draw(t, "lossy") {
 			c.Lose = rapid.SliceOfN(rapid.IntRange(0, 63), 1, 3).Draw(t, "lose")
+		}
+		if rapid.IntRange(0, 2).Draw(t, "sendfail") == 0 {
+			for range c.Lens {
+				c.SendFail = append(c.SendFail, rapid.SampledFrom([]int{0, 0, 1, 2, 2, 3, 5}).Draw(t, "failat"))
+			}
 		}
 		return c
 	}, Run: runPublic}
